@@ -2,6 +2,15 @@
   Property C10 — recovering a signer from arbitrary raw transaction bytes is total and sound.
   Model: FFS.Model.Tx (mirrors pkg/ethsigner/transaction.go after the fix: commit that added shape validation),
   over Model.Rlp (C06) and Model.Secp (C05). Curve library is a parameter.
+  * `recover_total` (+ `recoverLegacy_total`, `decode1559_total`, `recover1559_total`) : no panic for any bytes and
+        chain id.
+  * **`recover1559_sound`**, **`recoverLegacy_sound`** : whenever an address is returned, the returned payload is the
+        specification preimage of the returned fields (EIP-1559 list with the input's access-list item; plain legacy
+        or EIP-155 list with the supplied chain id), and the address is what the library recovers from the input's
+        V (reduced to 27/28 for legacy), R, S over keccak256 of exactly that payload (`C05.recoverDirect_ok` says what
+        that means: a public key recovered from those values, whose address it is).
+  * `chain_id_mismatch_refused`, `decode1559_sound` : a type-0x02 transaction is accepted only when its embedded chain
+        id equals the supplied one.
 -/
 import FFS.Model.Tx
 import FFS.Props.C05
@@ -163,5 +172,305 @@ theorem recover_total (C : Curve) (raw : Bytes) (cid : Int) : recoverRaw C raw c
     · split
       · exact recover1559_total C _ cid
       · simp
+
+/-! ### Soundness of what is returned -/
+
+theorem canon_scalar (x : Item) (h : isCanonInt x = true) :
+    ∃ n, itemInt x = some n ∧ x = Spec.Tx.scalar n := by
+  cases x with
+  | list xs => simp [isCanonInt] at h
+  | str b =>
+    refine ⟨fromBE b, rfl, ?_⟩
+    unfold Spec.Tx.scalar
+    congr 1
+    symm
+    apply minBE_fromBE_canon
+    intro c t hb
+    subst hb
+    simpa [isCanonInt] using h
+
+theorem addr_toItem (x : Item) (h : isAddrOrEmpty x = true) : x = Spec.Tx.toItem (itemAddr x) := by
+  cases x with
+  | list xs => simp [isAddrOrEmpty] at h
+  | str b =>
+    simp only [isAddrOrEmpty, Bool.or_eq_true, beq_iff_eq] at h
+    rcases h with h | h
+    · have : b = [] := List.length_eq_zero_iff.mp h
+      subst this
+      simp [itemAddr, Spec.Tx.toItem]
+    · simp [itemAddr, h, Spec.Tx.toItem]
+
+theorem str_bytes (x : Item) (h : isStr x = true) : x = .str (itemBytes x) := by
+  cases x with
+  | list xs => simp [isStr] at h
+  | str b => rfl
+
+/-- what `decodeEIP1559SignaturePayload` accepted: the embedded chain id is the supplied one, and the first nine items
+    are exactly the specification's list for the returned fields (the access-list item carried opaquely) -/
+theorem decode1559_sound (raw : Bytes) (cid : Int) (l : List Item) (tx : Tx)
+    (h : decode1559 raw cid min1559Signed = .ok (l, tx)) :
+    0 ≤ cid ∧ 12 ≤ l.length ∧
+    l.take 9 = Spec.Tx.items1559 (fields tx) cid.natAbs (l.getD 8 (.list [])) ∧
+    (∃ rest, raw = UInt8.ofNat type1559 :: rest) := by
+  unfold decode1559 at h
+  cases raw with
+  | nil => cases h
+  | cons b0 rest =>
+    simp only [] at h
+    by_cases hb0 : b0.toNat ≠ type1559
+    · rw [if_pos hb0] at h; cases h
+    · rw [if_neg hb0] at h
+      cases hd : Decode rest with
+      | err => rw [hd] at h; cases h
+      | panic => rw [hd] at h; cases h
+      | ok p =>
+        rw [hd] at h
+        obtain ⟨decoded, pos⟩ := p
+        simp only [] at h
+        cases decoded with
+        | none => cases h
+        | some it =>
+          cases it with
+          | str bb => cases h
+          | list l' =>
+            simp only [] at h
+            by_cases hlen : l'.length < min1559Signed
+            · rw [if_pos hlen] at h; cases h
+            · rw [if_neg hlen] at h
+              by_cases hchain : (!chainIdMatches l' cid) = true
+              · rw [if_pos hchain] at h; cases h
+              · rw [if_neg hchain] at h
+                cases hval : validate1559 l' min1559Signed with
+                | err => rw [hval] at h; cases h
+                | panic => rw [hval] at h; cases h
+                | ok bv =>
+                  rw [hval] at h
+                  cases bv with
+                  | false => cases h
+                  | true =>
+                    simp only [] at h
+                    injection h with h; injection h with h1 h2
+                    subst h1
+                    have hlen' : 12 ≤ l'.length := by simp only [min1559Signed] at hlen; omega
+                    obtain ⟨x0, x1, x2, x3, x4, x5, x6, x7, x8, x9, x10, x11, tl, rfl⟩ :
+                        ∃ x0 x1 x2 x3 x4 x5 x6 x7 x8 x9 x10 x11 tl, l' = x0 :: x1 :: x2 :: x3 :: x4 :: x5 :: x6 :: x7 :: x8 :: x9 :: x10 :: x11 :: tl := by
+                      match l', hlen' with
+                      | x0 :: x1 :: x2 :: x3 :: x4 :: x5 :: x6 :: x7 :: x8 :: x9 :: x10 :: x11 :: tl, _ =>
+                        exact ⟨x0, x1, x2, x3, x4, x5, x6, x7, x8, x9, x10, x11, tl, rfl⟩
+                    simp only [validate1559, validation_present.2.1, if_true, min1559Signed, ge_iff_le, Nat.le_refl, validTxScalars,
+                      e1559Ints, e1559IntsSigned, e1559Bytes, e1559BytesSigned, e1559To] at hval
+                    split at hval
+                    · cases hval
+                    · injection hval with hval
+                      simp only [List.all_cons, List.all_nil, Bool.and_true, Bool.and_eq_true, List.cons_append, List.nil_append,
+                        List.getD_cons_zero, List.getD_cons_succ] at hval
+                      obtain ⟨⟨⟨h0, h1, h2', h3, h4, h6, h9⟩, h7, _, _⟩, h5⟩ := hval
+                      obtain ⟨n0, e0, rfl⟩ := canon_scalar x0 h0
+                      obtain ⟨n1, e1, rfl⟩ := canon_scalar x1 h1
+                      obtain ⟨n2, e2, rfl⟩ := canon_scalar x2 h2'
+                      obtain ⟨n3, e3, rfl⟩ := canon_scalar x3 h3
+                      obtain ⟨n4, e4, rfl⟩ := canon_scalar x4 h4
+                      obtain ⟨n6, e6, rfl⟩ := canon_scalar x6 h6
+                      have hc : (n0 : Int) = cid := by
+                        have := hchain
+                        simp only [chainIdMatches, validation_present.2.2, if_true, List.getD_cons_zero, e0, Option.getD_some,
+                          Bool.not_eq_true'] at this
+                        by_cases e : (n0 : Int) = cid
+                        · exact e
+                        · exact absurd (by simpa using e) this
+                      have hcn : cid.natAbs = n0 := by omega
+                      refine ⟨by omega, by simp, ?_, ⟨rest, by
+                        have : b0 = UInt8.ofNat type1559 := by
+                          have hb : b0.toNat = type1559 := by simpa using hb0
+                          apply UInt8.toNat_inj.mp
+                          rw [hb]; decide
+                        rw [this]⟩⟩
+                      rw [← h2]
+                      simp only [List.take, Spec.Tx.items1559, fields, big, List.getD_cons_zero, List.getD_cons_succ, e1, e2, e3, e4, e6,
+                        Option.getD_some, hcn]
+                      rw [← addr_toItem x5 h5, ← str_bytes x7 h7]
+
+theorem recoverCommon_inv (C : Curve) (tx tx' : Tx) (msg p : Bytes) (cid v : Int) (r s a : Bytes)
+    (h : recoverCommon C tx msg cid v r s = .ok (a, tx', p)) :
+    tx' = tx ∧ p = msg ∧
+    Model.Secp.recover C { V := some v, R := some (fromBE r), S := some (fromBE s) } msg cid = .ok a := by
+  unfold recoverCommon at h
+  split at h
+  · rename_i a' hr
+    injection h with h; injection h with h1 h2; injection h2 with h2 h3
+    subst h1
+    exact ⟨h2.symm, h3.symm, hr⟩
+  · cases h
+  · cases h
+
+theorem recover1559_inv (C : Curve) (raw : Bytes) (cid : Int) (res : Bytes × Tx × Bytes)
+    (h : recover1559 C raw cid = .ok res) :
+    ∃ (l : List Item) (tx : Tx) (vBig : Nat), decode1559 raw cid min1559Signed = .ok (l, tx) ∧
+      itemInt (l.getD 9 (.list [])) = some vBig ∧
+      recoverCommon C tx (UInt8.ofNat type1559 :: enc (.list (l.take 9))) cid (bigInt64 vBig)
+        (itemBytes (l.getD 10 (.list []))) (itemBytes (l.getD 11 (.list []))) = .ok res := by
+  unfold recover1559 at h
+  cases hd : decode1559 raw cid min1559Signed with
+  | err => rw [hd] at h; cases h
+  | panic => rw [hd] at h; cases h
+  | ok p =>
+    rw [hd] at h
+    obtain ⟨l, tx'⟩ := p
+    simp only [] at h
+    cases hv : itemInt (l.getD 9 (.list [])) with
+    | none => rw [hv] at h; cases h
+    | some vBig =>
+      rw [hv] at h
+      exact ⟨l, tx', vBig, rfl, hv, h⟩
+
+/-- **Soundness of EIP-1559 recovery.** Whenever an address is returned: the input is a type-0x02 envelope whose
+    embedded chain id is the supplied one; the returned payload is the specification preimage of the returned fields
+    (with the access-list item of the input); and the returned address is what the library recovers from the V, R, S
+    of the input over keccak256 of exactly that payload (see `C05.recoverDirect_ok` for what that means). -/
+theorem recover1559_sound (C : Curve) (raw : Bytes) (cid : Int) (a : Bytes) (tx : Tx) (payload : Bytes)
+    (h : recover1559 C raw cid = .ok (a, tx, payload)) :
+    ∃ (l : List Item) (vBig : Nat), decode1559 raw cid min1559Signed = .ok (l, tx) ∧ 0 ≤ cid ∧
+      payload = UInt8.ofNat type1559 :: enc (.list (Spec.Tx.items1559 (fields tx) cid.natAbs (l.getD 8 (.list [])))) ∧
+      itemInt (l.getD 9 (.list [])) = some vBig ∧
+      recoverDirect C { V := some (bigInt64 vBig), R := some ((fromBE (itemBytes (l.getD 10 (.list []))) : Nat) : Int),
+                        S := some ((fromBE (itemBytes (l.getD 11 (.list []))) : Nat) : Int) } (Prim.keccak256 payload) cid = .ok a := by
+  obtain ⟨l, tx', vBig, hd, hv, hrc⟩ := recover1559_inv C raw cid _ h
+  obtain ⟨htx, hp, hr⟩ := recoverCommon_inv C tx' tx _ payload cid _ _ _ a hrc
+  subst htx
+  obtain ⟨hc, _, htake, _⟩ := decode1559_sound raw cid l tx hd
+  rw [htake] at hp hr
+  refine ⟨l, vBig, hd, hc, hp, hv, ?_⟩
+  rw [hp]
+  exact hr
+
+/-- **A type-0x02 transaction whose embedded chain id differs from the one supplied is refused.** -/
+theorem chain_id_mismatch_refused (C : Curve) (raw : Bytes) (cid : Int) (l : List Item) (tx : Tx)
+    (h : decode1559 raw cid min1559Signed = .ok (l, tx)) :
+    ∃ n : Nat, itemInt (l.getD 0 (.list [])) = some n ∧ (n : Int) = cid := by
+  obtain ⟨hc, hlen, htake, _⟩ := decode1559_sound raw cid l tx h
+  have h0 : (l.take 9).getD 0 (.list []) = l.getD 0 (.list []) := by
+    cases l with
+    | nil => simp at hlen
+    | cons x xs => rfl
+  rw [htake] at h0
+  refine ⟨cid.natAbs, ?_, by omega⟩
+  rw [← h0]
+  simp [Spec.Tx.items1559, Spec.Tx.scalar, itemInt, fromBE_minBE]
+
+/-- the transaction `RecoverLegacyRawTransaction` builds from a decoded list -/
+def legacyTxOf (l : List Item) : Tx :=
+  { nonce := itemInt (l.getD 0 (.list [])), gasPrice := itemInt (l.getD 1 (.list [])), gasLimit := itemInt (l.getD 2 (.list [])),
+    to := itemAddr (l.getD 3 (.list [])), value := itemInt (l.getD 4 (.list [])), data := itemBytes (l.getD 5 (.list [])),
+    tip := none, feeCap := none }
+
+/-- a validated legacy list starts with exactly the specification's six items for the fields that are returned -/
+theorem validateLegacy_sound (l : List Item) (hlen : 9 ≤ l.length) (hval : validateLegacy l = .ok true) :
+    l.take 6 = Spec.Tx.legacyItems (fields (legacyTxOf l)) := by
+  obtain ⟨x0, x1, x2, x3, x4, x5, x6, x7, x8, tl, rfl⟩ :
+      ∃ x0 x1 x2 x3 x4 x5 x6 x7 x8 tl, l = x0 :: x1 :: x2 :: x3 :: x4 :: x5 :: x6 :: x7 :: x8 :: tl := by
+    match l, hlen with
+    | x0 :: x1 :: x2 :: x3 :: x4 :: x5 :: x6 :: x7 :: x8 :: tl, _ => exact ⟨x0, x1, x2, x3, x4, x5, x6, x7, x8, tl, rfl⟩
+  unfold validateLegacy at hval
+  rw [if_pos validation_present.1] at hval
+  unfold validTxScalars at hval
+  have hany : ((legacyInts ++ legacyBytes ++ [legacyTo]).any fun i =>
+      decide ((x0 :: x1 :: x2 :: x3 :: x4 :: x5 :: x6 :: x7 :: x8 :: tl).length ≤ i)) = false := by
+    simp [legacyInts, legacyBytes, legacyTo]
+  rw [if_neg (by rw [hany]; simp)] at hval
+  have hval' := hval
+  clear hval
+  injection hval' with hval
+  · simp only [legacyInts, legacyBytes, legacyTo, List.all_cons, List.all_nil, Bool.and_true, Bool.and_eq_true,
+      List.getD_cons_zero, List.getD_cons_succ] at hval
+    obtain ⟨⟨⟨h0, h1, h2, h4, _⟩, h5, _, _⟩, h3⟩ := hval
+    obtain ⟨n0, e0, rfl⟩ := canon_scalar x0 h0
+    obtain ⟨n1, e1, rfl⟩ := canon_scalar x1 h1
+    obtain ⟨n2, e2, rfl⟩ := canon_scalar x2 h2
+    obtain ⟨n4, e4, rfl⟩ := canon_scalar x4 h4
+    simp only [List.take, Spec.Tx.legacyItems, fields, legacyTxOf, big, List.getD_cons_zero, List.getD_cons_succ, e0, e1, e2, e4,
+      Option.getD_some]
+    rw [← addr_toItem x3 h3, ← str_bytes x5 h5]
+
+theorem recoverLegacy_inv (C : Curve) (raw : Bytes) (cid : Int) (res : Bytes × Tx × Bytes)
+    (h : recoverLegacy C raw cid = .ok res) :
+    ∃ (l : List Item) (pos : Nat) (vBig : Nat), Decode raw = .ok (some (.list l), pos) ∧ 9 ≤ l.length ∧
+      validateLegacy l = .ok true ∧ itemInt (l.getD 6 (.list [])) = some vBig ∧
+      ((vNotLegacy (bigInt64 vBig) = true ∧ vNotLegacy (wrap64 (v155ToLegacy (bigInt64 vBig) cid)) = false ∧
+          recoverCommon C (legacyTxOf l) (enc (.list (addEIP155 (l.take 6) cid))) cid (wrap64 (v155ToLegacy (bigInt64 vBig) cid))
+            (itemBytes (l.getD 7 (.list []))) (itemBytes (l.getD 8 (.list []))) = .ok res) ∨
+       (vNotLegacy (bigInt64 vBig) = false ∧
+          recoverCommon C (legacyTxOf l) (enc (.list (l.take 6))) cid (bigInt64 vBig)
+            (itemBytes (l.getD 7 (.list []))) (itemBytes (l.getD 8 (.list []))) = .ok res)) := by
+  unfold recoverLegacy at h
+  cases hd : Decode raw with
+  | err => rw [hd] at h; cases h
+  | panic => rw [hd] at h; cases h
+  | ok p =>
+    rw [hd] at h
+    obtain ⟨decoded, pos⟩ := p
+    simp only [] at h
+    cases decoded with
+    | none => cases h
+    | some it =>
+      cases it with
+      | str bb => cases h
+      | list l =>
+        simp only [] at h
+        by_cases hshort : legacyTooShort l.length = true
+        · rw [if_pos hshort] at h; cases h
+        · rw [if_neg hshort] at h
+          have hlen : 9 ≤ l.length := by
+            simp only [legacyTooShort, Bool.false_or, decide_eq_true_eq] at hshort; omega
+          cases hval : validateLegacy l with
+          | err => rw [hval] at h; cases h
+          | panic => rw [hval] at h; cases h
+          | ok bv =>
+            rw [hval] at h
+            cases bv with
+            | false => cases h
+            | true =>
+              simp only [] at h
+              cases hv : itemInt (l.getD 6 (.list [])) with
+              | none => rw [hv] at h; cases h
+              | some vBig =>
+                rw [hv] at h
+                simp only [] at h
+                refine ⟨l, pos, vBig, rfl, hlen, hval, hv, ?_⟩
+                by_cases hn1 : vNotLegacy (bigInt64 vBig) = true
+                · rw [if_pos hn1] at h
+                  by_cases hn2 : vNotLegacy (wrap64 (v155ToLegacy (bigInt64 vBig) cid)) = true
+                  · rw [if_pos hn2] at h; cases h
+                  · rw [if_neg hn2] at h
+                    exact Or.inl ⟨hn1, by simpa using hn2, h⟩
+                · rw [if_neg hn1] at h
+                  exact Or.inr ⟨by simpa using hn1, h⟩
+
+/-- **Soundness of legacy recovery.** Whenever an address is returned, the returned payload is the specification
+    preimage of the returned fields — the plain legacy preimage when V is 27/28, the EIP-155 preimage with the supplied
+    chain id when V is 35 + 2·chainId + parity — and the address is what the library recovers from the input's V
+    (reduced to 27/28), R, S over keccak256 of exactly that payload. -/
+theorem recoverLegacy_sound (C : Curve) (raw : Bytes) (cid : Int) (a : Bytes) (tx : Tx) (payload : Bytes)
+    (h : recoverLegacy C raw cid = .ok (a, tx, payload)) :
+    ∃ (l : List Item) (v : Int), tx = legacyTxOf l ∧
+      (payload = enc (.list (Spec.Tx.legacyItems (fields tx))) ∨
+       payload = enc (.list (addEIP155 (Spec.Tx.legacyItems (fields tx)) cid))) ∧
+      (v = 27 ∨ v = 28) ∧
+      Model.Secp.recover C { V := some v, R := some ((fromBE (itemBytes (l.getD 7 (.list []))) : Nat) : Int),
+                             S := some ((fromBE (itemBytes (l.getD 8 (.list []))) : Nat) : Int) } payload cid = .ok a := by
+  obtain ⟨l, pos, vBig, _, hlen, hval, _, hcase⟩ := recoverLegacy_inv C raw cid _ h
+  have htake := validateLegacy_sound l hlen hval
+  rcases hcase with ⟨_, hn2, hrc⟩ | ⟨hn1, hrc⟩
+  · obtain ⟨htx, hp, hr⟩ := recoverCommon_inv C (legacyTxOf l) tx _ payload cid _ _ _ a hrc
+    subst htx
+    rw [htake] at hp hr
+    refine ⟨l, wrap64 (v155ToLegacy (bigInt64 vBig) cid), rfl, Or.inr hp, ?_, by rw [hp]; exact hr⟩
+    simp only [vNotLegacy, Bool.and_eq_false_iff, decide_eq_false_iff_not, Decidable.not_not] at hn2
+    exact hn2
+  · obtain ⟨htx, hp, hr⟩ := recoverCommon_inv C (legacyTxOf l) tx _ payload cid _ _ _ a hrc
+    subst htx
+    rw [htake] at hp hr
+    refine ⟨l, bigInt64 vBig, rfl, Or.inl hp, ?_, by rw [hp]; exact hr⟩
+    simp only [vNotLegacy, Bool.and_eq_false_iff, decide_eq_false_iff_not, Decidable.not_not] at hn1
+    exact hn1
 
 end FFS.Props.C10
